@@ -159,6 +159,27 @@ HAND = [
      'extend google.protobuf.MessageOptions { int32 mx = 50001; }\n'
      'message M { option features.message_encoding = DELIMITED; option (mx) = 7; int32 a = 1 [features.field_presence = EXPLICIT]; '
      'repeated int32 r = 2 [features.repeated_field_encoding = EXPANDED]; }\nenum E { option features.enum_type = CLOSED; Z = 0; }\n'),
+    ("one repeated standard option next to one custom option",
+     'syntax = "proto2";\nimport "google/protobuf/descriptor.proto";\nextend google.protobuf.FieldOptions { optional string owner = 50001; }\n'
+     'message M { optional int32 a = 1 [targets = TARGET_TYPE_FIELD, (owner) = "x"]; }\n'),
+    ("one custom option next to one repeated standard option, unresolvable custom option",
+     'syntax = "proto2";\nimport "google/protobuf/descriptor.proto";\n'
+     'message M { extensions 100 to 200 [(nosuch) = 1, declaration = { number: 100, full_name: ".b", type: "int32" }]; }\n'),
+    ("repeated standard options next to custom options, every element kind that has them",
+     'syntax = "proto2";\nimport "google/protobuf/descriptor.proto";\n'
+     'extend google.protobuf.FieldOptions { optional string owner = 50001; repeated int32 tags = 50002; }\n'
+     'extend google.protobuf.ExtensionRangeOptions { optional string rowner = 50001; }\n'
+     'extend google.protobuf.MessageOptions { optional int32 tag = 50001 [targets = TARGET_TYPE_MESSAGE, targets = TARGET_TYPE_ENUM, (owner) = "me", (tags) = 1, (tags) = 2]; }\n'
+     'message M { optional int32 a = 1 [(owner) = "x", targets = TARGET_TYPE_FIELD, edition_defaults = { edition: EDITION_2023, value: "1" }, '
+     'edition_defaults = { edition: EDITION_PROTO2, value: "2" }, (tags) = 3, targets = TARGET_TYPE_FILE];\n'
+     ' extensions 100 to 200 [declaration = { number: 100, full_name: ".b", type: "int32" }, (rowner) = "me", declaration = { number: 101, full_name: ".c", type: "string" }, verification = DECLARATION];\n'
+     ' extensions 300 to 400 [(rowner) = 5, declaration = { number: 300, full_name: ".d", type: "int32" }]; }\n'),
+    ("repeated standard options next to custom options, editions",
+     'edition = "2023";\nimport "google/protobuf/descriptor.proto";\n'
+     'extend google.protobuf.FieldOptions { string owner = 50001; }\n'
+     'message M { int32 a = 1 [targets = TARGET_TYPE_FIELD, features.field_presence = IMPLICIT, (owner) = "x", targets = TARGET_TYPE_MESSAGE, '
+     'feature_support = { edition_introduced: EDITION_2023 }, edition_defaults = { edition: EDITION_2023, value: "1" }];\n'
+     ' int32 b = 2 [(owner) = "y", (nosuch) = 1, targets = TARGET_TYPE_FIELD, targets = TARGET_TYPE_FIELD]; }\n'),
     ("features-and-failures", 'edition = "2023";\nimport "google/protobuf/descriptor.proto";\n'
      'extend google.protobuf.MessageOptions { int32 mx = 50001; }\n'
      'message M { option deprecated = true; option (mx) = 7; option (mx) = 8; option nosuch = 1; int32 a = 1 [features.field_presence = EXPLICIT, nosuch = 2]; }\n'),
@@ -168,7 +189,9 @@ HAND = [
 def run(ctx):
     rng = ctx.rng
     ctx.rule = ("a case = one generated file (custom-option schema + one target element with 1..7 option statements, about half of them "
-                "failing) interpreted by InterpretOptions, InterpretOptionsLenient and InterpretUnlinkedOptions; plus the repository's own "
+                "failing; a stratum in which repeated and message-typed standard options (targets, edition_defaults, declaration, feature_support) "
+                "stand next to custom options on one element, standard first / custom first / interleaved, on the fixed and on random schemas; "
+                "a stratum in which one field descriptor is reached through several paths) interpreted by InterpretOptions, InterpretOptionsLenient and InterpretUnlinkedOptions; plus the repository's own "
                 "option test files and hand-written files with pseudo-options and features (pairwise oracle only); distinct = distinct "
                 "(schema, element kind, statements) or file; non-trivial = at least one option statement")
     # the repository's own files and hand-written files with pseudo-options and features: pairwise oracle
@@ -197,7 +220,36 @@ def run(ctx):
                 c = make_case(rng, ctx, ek, 0, fixed=(fixed[ek], sts))
                 c["sch_ref"] = "fx_" + ek
                 cases.append(("corpus", c))
-    for i in range(ctx.budget(380, 10000)):
+    # repeated / message-typed standard options together with custom options on one element, in every order: the two passes
+    # write the same options message, and the lenient branch hands its copy back at the end of each pass
+    for ek in eks:
+        for j, sts in enumerate(std_custom_corpus(ek)):
+            if ek not in ("field", "extrange", "enumval") and j % 3 and ctx.tier != "thorough":
+                continue        # kinds whose standard options are all singular scalars: a third of the list
+            c = make_case(rng, ctx, ek, 0, fixed=(fixed[ek], sts))
+            c["sch_ref"] = "fx_" + ek
+            cases.append(("std+custom", c))
+    mix = ["field", "extrange", "field", "extrange", "enumval"] + eks
+    for i in range(ctx.budget(70, 3000)):
+        ek = mix[i % len(mix)]
+        if i % 2:
+            sts = std_custom_stmts(rng, fixed[ek], wrong=(8 if i % 4 == 3 else 0))
+            c = make_case(rng, ctx, ek, 0, fixed=(fixed[ek], sts))
+            c["sch_ref"] = "fx_" + ek
+        else:
+            sch = gen_schema(ctx, rng, ek, rich=True)
+            c = make_case(rng, ctx, ek, 0, fixed=(sch, std_custom_stmts(rng, sch, wrong=(8 if i % 4 == 2 else 0))))
+        cases.append(("std+custom-random", c))
+    # one field descriptor through several paths (the bookkeeping of fields without presence is per options message and pass)
+    wsch = {ek: twin_schema(ctx, ek) for ek in eks}
+    wcs = twin_corpus()
+    for i in range(ctx.budget(24, 1500)):
+        ek = eks[i % len(eks)]
+        sts = wcs[-1 - (i % 26)] if i % 2 else same_field_stmts(rng, wsch[ek])
+        c = make_case(rng, ctx, ek, 0, fixed=(wsch[ek], sts))
+        c["sch_ref"] = "tw_" + ek
+        cases.append(("same-field-paths", c))
+    for i in range(ctx.budget(300, 10000)):
         ek = eks[i % len(eks)]
         if i % 3 == 0:
             cases.append(("random-accepted", make_case(rng, ctx, ek, rng.range(1, 5), rich=True, lits=True, wrong=0)))
